@@ -117,6 +117,9 @@ Fixpoint lookup_chain (fuel : nat) (st : state) (l : loc) (k : pkey) : option (p
       end
   end.
 Definition CHAIN_FUEL : nat := 10000.
+(* bound of the inner list/iterator/scope-chain loops; a named constant so that the extracted code builds the numeral once *)
+Definition LOOP_FUEL : nat := 100000.
+Definition LABEL_FUEL : nat := 1000.
 Definition has_property (st : state) (l : loc) (k : pkey) : bool :=
   match lookup_chain CHAIN_FUEL st l k with Some _ => true | None => false end.
 Definition has_own (st : state) (l : loc) (k : pkey) : bool :=
@@ -545,16 +548,24 @@ Definition iterate_to_list (v : value) : M (list value) :=
      | Datatypes.S f =>
          do s <- iterator_step it nx;;
          match s with None => ret (rev acc) | Some x => go f (x :: acc) end
-     end) 100000%nat [].
+     end) LOOP_FUEL [].
 
 (* ---- operators *)
 Definition is_loosely_nullish (v : value) := match v with VUndef | VNull => true | _ => false end.
 
+(* StringToBigInt (7.1.14): StrWhiteSpace? (SignedInteger | NonDecimalIntegerLiteral) StrWhiteSpace?, empty -> 0n *)
 Definition string_to_bigint (s : str) : option Z :=
   let t := trim_ws s in
   match t with
   | [] => Some 0%Z
-  | _ => match parse_radix 10 t 0 false with Some z => Some z | None => None end
+  | 45%N :: rest => option_map Z.opp (parse_radix 10 rest 0 false)
+  | 43%N :: rest => parse_radix 10 rest 0 false
+  | 48%N :: x :: rest =>
+      if ((x =? 120) || (x =? 88))%N then parse_radix 16 rest 0 false
+      else if ((x =? 111) || (x =? 79))%N then parse_radix 8 rest 0 false
+      else if ((x =? 98) || (x =? 66))%N then parse_radix 2 rest 0 false
+      else parse_radix 10 t 0 false
+  | _ => parse_radix 10 t 0 false
   end.
 
 Definition bigint_eq_num (z : Z) (f : float) : bool :=
@@ -814,7 +825,7 @@ Definition resolve_binding (c : ctx) (x : str) : M resolved :=
        do h <- has_binding r x;;
        if h then ret (RBEnv r)
        else do e <- the_env r;; match e_outer e with Some o => go f o | None => ret RBUnresolvable end
-     end) 100000%nat (c_lex c).
+     end) LOOP_FUEL (c_lex c).
 
 Definition get_binding_value (r : envref) (x : str) (strict : bool) : M value :=
   do e <- the_env r;;
@@ -873,7 +884,7 @@ Definition this_env (c : ctx) : M (envref * env) :=
        | TNone => match e_outer e with Some o => go f o | None => unsupported 924%N end
        | _ => ret (r, e)
        end
-     end) 100000%nat (c_lex c).
+     end) LOOP_FUEL (c_lex c).
 
 Definition resolve_this (c : ctx) : M value :=
   do re <- this_env c;;
